@@ -27,7 +27,9 @@ CASE_TIMEOUT = 90.0  # a single (tree | lemma | history) case takes well under a
 RULE = (
     "(A) (d, R, op, k): all non-empty R subset of Z_d, d<=D, k in 0..3d+2 plus far counts {2**31, 2**63, 2**63+1, 10**18+9}, "
     "op in {repeat, repeat_range}; (leaf, alignment, d) for padding. (B) all operator trees of the tier's depth over 8 leaves, "
-    "counts {0,1,2,3,5}+far, alignments {1,2,3,8}; every tree is asked min/max/fixed_length, %d and is_aligned_at(d) for "
+    "counts {0,1,2,3,5}+far, alignments {1,2,3,8} (+{5,12,16,64} at depth 1), plus every cat/uni of two (13-tree alphabet) or three (6-tree alphabet) "
+    "COMPOSED operands with one unary operator on top; divisors of the tier plus {2**32, 2**63-1, 10**18+9} when all counts are <= 8, each also asked in "
+    "descending order of a fresh object; every tree is asked min/max/fixed_length, %d and is_aligned_at(d) for "
     "every d of the tier, is_aligned_at_byte, and iteration/len whenever the implementation's own expansion stays below the "
     "expansion budget. (C) all permutations of the query set on fresh objects. A case is non-trivial iff the tree has an "
     "operator node and either the reference residue set/expansion has >= 2 elements or a repetition count >= divisor is "
@@ -43,6 +45,8 @@ LEAVES = [[0], [1], [8], [1, 2], [0, 8], [3, 7], [8, 12, 16], [5, 6, 7, 11]]
 KS = [0, 1, 2, 3, 5]
 FAR = [2**31, 2**63, 2**63 + 1, 10**18 + 9]
 AS = [1, 2, 3, 8]
+AS_FAR = [5, 16, 64, 12]  # alignments beyond a byte and alignments that share a factor with, but do not divide, common divisors
+FAR_DIVISORS = [2**32, 2**63 - 1, 10**18 + 9]  # asked only of trees whose counts are small (the implementation is O(count * |residues|**2))
 
 
 def leaf(v):
@@ -55,7 +59,7 @@ def depth1():
         for k in KS + FAR:
             yield ["rep", l, k]
             yield ["rng", l, k]
-        for a in AS:
+        for a in AS + AS_FAR:
             yield ["pad", l, a]
     for a, b in itertools.product(ls, repeat=2):
         yield ["cat", [a, b]]
@@ -81,6 +85,31 @@ def grow(children):
             yield ["uni", [l, t]]
 
 
+def small_depth1():
+    """A reduced depth-1 alphabet (one or two representatives per operator) for binary nodes with BOTH operands composed."""
+    a, b, c = leaf([1, 2]), leaf([3, 7]), leaf([8, 12, 16])
+    return [
+        ["rep", a, 3], ["rep", b, 5], ["rep", c, 2**63 + 1], ["rng", a, 2], ["rng", b, 5], ["rng", c, 2**31],
+        ["pad", a, 3], ["pad", b, 8], ["pad", c, 5], ["cat", [a, b]], ["cat", [c, leaf([5, 6, 7, 11])]], ["uni", [a, c]], ["uni", [b, leaf([0])]],
+    ]
+
+
+def both_composed():
+    """cat / uni of two and three depth-1 trees (every ordered pair, every ordered triple of a 6-tree sub-alphabet), then one unary operator on top."""
+    s1 = small_depth1()
+    for x, y in itertools.product(s1, repeat=2):
+        for op in ("cat", "uni"):
+            t = [op, [x, y]]
+            yield t
+            yield ["pad", t, 3]
+            yield ["pad", t, 8]
+            yield ["rep", t, 3]
+            yield ["rng", t, 2**63]
+    for x, y, z in itertools.product(s1[::2][:6], repeat=3):
+        yield ["cat", [x, y, z]]
+        yield ["uni", [x, y, z]]
+
+
 def trees(depth: int):
     if depth == 0:
         for v in LEAVES:
@@ -89,6 +118,8 @@ def trees(depth: int):
         yield from depth1()
     elif depth == 2:
         yield from grow(depth1())
+    elif depth == "both":
+        yield from both_composed()
     elif depth == 3:
         # every 4th depth-2 tree as the non-leaf child (a stated slice: the full depth-3 space is 1.26 M trees x 67 divisors)
         yield from grow(t for i, t in enumerate(grow(depth1())) if i % 4 == 0)
@@ -163,6 +194,8 @@ def plan(tier):
         for p in range(pp):
             shards.append({"kind": "trees", "depth": dd, "part": p, "parts": pp})
     for p in range(16):
+        shards.append({"kind": "trees", "depth": "both", "part": p, "parts": 16})
+    for p in range(16):
         shards.append({"kind": "hist", "part": p, "parts": 16})
     return shards
 
@@ -174,6 +207,8 @@ def divisors(tier, t):
         ds = list(range(1, 65))
         if max_count(t) <= 8:
             ds += [255, 256, 12345]
+    if max_count(t) <= 8:
+        ds += FAR_DIVISORS
     return ds
 
 
@@ -287,6 +322,17 @@ def check_tree(case, R):
             R.outcome("tree-mismatch")
         else:
             R.outcome("tree-match")
+        if sp == 0 and has_op(t):
+            # the same divisors asked of a fresh object in DESCENDING order (alignment first): an answer must not depend on
+            # which other divisors were asked before it (per-node caches keyed by divisor)
+            b2 = build(t, 0)
+            for d in reversed(ds):
+                al = b2.is_aligned_at(d)
+                r = sorted(b2 % d)
+                R.counters["queries"] += 2
+                if r != exp["%%%d" % d] or al != exp["al%d" % d]:
+                    _viol(R, "tree-residues-descending-%s" % root_kind(t), "analytic residues do not depend on the order in which divisors are asked", {"kind": "tree", "tree": t, "tier": tier, "ds": ds}, {"d": d, "got": r, "aligned": al}, {"residues": exp["%%%d" % d], "aligned": exp["al%d" % d]})
+                    break
         # numerical expansion
         if sp == 0 and ref.impl_expansion_cost(t) <= EXPANSION_BUDGET[tier]:
             e = ref.try_expand(t)
@@ -397,8 +443,8 @@ def finish(tier, M):
         raise engine.Vacuous("a sub-space was not visited: %r" % dict(M.hist))
     return {
         "bounds": {
-            "quick": "lemma: all R for d<=7, |R|<=3 for d<=12, k<=3d+2+far; pad: all leaves subset of 0..9, a<=8, d<=8; trees depth<=2, d in 1..16,32,64; histories: 5 queries (120 permutations + re-ask) on depth<=1 trees and a slice of depth 2",
-            "thorough": "lemma: all R for d<=9, |R|<=3 for d<=24; pad: leaves subset of 0..11; trees depth<=2 in full and depth 3 over every 4th depth-2 child (one non-leaf child per node), d in 1..64 (+255,256,12345 when counts<=8); histories: 6 queries (720 permutations)",
+            "quick": "lemma: all R for d<=7, |R|<=3 for d<=12, k<=3d+2+far; pad: all leaves subset of 0..9, a<=8, d<=8; trees depth<=2 and the both-operands-composed family, d in 1..16,32,64 (+3 far divisors for small counts), ascending and descending; histories: 5 queries (120 permutations + re-ask) on depth<=1 trees and a slice of depth 2",
+            "thorough": "lemma: all R for d<=9, |R|<=3 for d<=24; pad: leaves subset of 0..11; trees depth<=2 in full and depth 3 over every 4th depth-2 child (one non-leaf child per node) and the both-operands-composed family, d in 1..64 (+255,256,12345 when counts<=8); histories: 6 queries (720 permutations)",
         }[tier],
         "reference_selfcheck": "ref.bls.selfcheck(): explicit expansion vs modular exponentiation on >1000 (tree, divisor) pairs in every worker",
     }
